@@ -1414,7 +1414,7 @@ func runC17(ctx *Ctx) *Result {
 		"runs_binary-package": 20, "runs_binary-standalone-mk": 5,
 		"binary_verdicts_R": 5, "binary_verdicts_O": 5, "binary_verdicts_N": 5,
 		"pkgtree_runs": 100, "pkgtree_runs_recursive": 30, "pkgtree_runs_with_verdicts": 60,
-		"pkgtree_verdicts_on_fragment_lines": 50, "pkgtree_verdicts_expected": 150, "pkgtree_fragment_analysed_alone": 5,
+		"pkgtree_verdicts_on_fragment_lines": 50, "pkgtree_verdicts_expected": 150, "pkgtree_fragment_analysed_alone": 3,
 		"pkgtree_spelling_plain": 5, "pkgtree_spelling_dot-slash": 5, "pkgtree_spelling_canonical": 10,
 		"pkgtree_spelling_curdir": 5, "pkgtree_spelling_sibling": 5,
 		"pkgtree_frag_own": 20, "pkgtree_frag_other": 10, "pkgtree_frag_shared": 10,
